@@ -59,8 +59,10 @@ class LoopSpec:
     strictly decreasing) or None for `for` loops over a finite sequence; ghost: names in st.ghost havocked with the loop;
     fresh(name, sv) optional custom havoc."""
 
-    def __init__(self, name, inv, variant=None, ghost_havoc=None, extra_mods=(), keep=()):
+    def __init__(self, name, inv, variant=None, ghost_havoc=None, extra_mods=(), keep=(), protos=None):
         self.name, self.inv, self.variant = name, inv, variant
+        self.protos = protos or {}           # name -> prototype SV used to havoc a variable whose shape at loop entry differs
+                                             # from its shape inside the loop (prev = None before, a key afterwards)
         self.ghost_havoc = ghost_havoc       # fn(ex, st) -> None : replace ghost state by fresh symbols
         self.extra_mods = tuple(extra_mods)
         self.keep = tuple(keep)              # assigned names that need no havoc (re-initialised in every iteration before use)
@@ -892,6 +894,18 @@ class Exec:
             raise OutOfSubset('cannot havoc %s of kind %s' % (name, v.kind))
         return r
 
+    def _same_shapes(self, head, end, mods, s):
+        """soundness of the havoc: a variable must have the same shape at the end of the body as the havocked one at the head"""
+        for n in mods:
+            a, b = head.env.get(n), end.env.get(n)
+            if a is None or b is None:
+                continue
+            if a.kind != b.kind and not ({a.kind, b.kind} <= {'val', 'none'} and a.kind == 'val'):
+                raise OutOfSubset('loop at line %d changes the shape of %s (%s -> %s): the loop contract must give a prototype' % (
+                    s.lineno, n, a.kind, b.kind))
+            if a.kind == 'list' and a.f.get('ety') is not None and b.f.get('ety') is not None and a.f.get('ety') != b.f.get('ety'):
+                raise OutOfSubset('loop at line %d changes the element type of list %s' % (s.lineno, n))
+
     def _check_inv(self, st, spec, entry, label, kind):
         for cname, c in spec.inv(st, entry):
             self.oblige(st, '%s.%s.%s' % (spec.name, label, cname), c, kind=kind)
@@ -931,7 +945,7 @@ class Exec:
         mods = [n for n in self._assigned(s.body) if n in st.env and n not in spec.keep] + list(spec.extra_mods)
         h = st.fork()
         for n in mods:
-            h.env[n] = self.fresh_like(h, n, st.env[n])
+            h.env[n] = self.fresh_like(h, n, spec.protos.get(n, st.env[n]))
         if spec.ghost_havoc:
             spec.ghost_havoc(self, h)
         self._assume_inv(h, spec, entry)
@@ -943,6 +957,7 @@ class Exec:
         if self.feasible(body):
             for o in self.run_block(body, s.body):
                 if o.kind in ('next', 'continue'):
+                    self._same_shapes(h, o.st, mods, s)
                     self._check_inv(o.st, spec, entry, 'inv_preserved', 'inv_preserved')
                     if v0 is not None:
                         self.oblige(o.st, '%s.variant' % spec.name, And(v0 >= 0, spec.variant(o.st) < v0), kind='variant')
@@ -976,7 +991,7 @@ class Exec:
         mods = [m for m in self._assigned(s.body) if m in st.env and m not in tnames and m not in spec.keep] + list(spec.extra_mods)
         h = st.fork()
         for m in mods:
-            h.env[m] = self.fresh_like(h, m, st.env[m])
+            h.env[m] = self.fresh_like(h, m, spec.protos.get(m, st.env[m]))
         k = fresh_int('k')
         h.ghost[kname] = k
         h.pc.append(And(0 <= k, k <= n))
@@ -990,6 +1005,7 @@ class Exec:
             for o in self.run_block(body, s.body):
                 if o.kind in ('next', 'continue'):
                     o.st.ghost[kname] = k + 1
+                    self._same_shapes(h, o.st, mods, s)
                     self._check_inv(o.st, spec, entry, 'inv_preserved', 'inv_preserved')
                 elif o.kind == 'break':
                     res.append(Outcome('next', o.st))
